@@ -12,17 +12,16 @@ Failure classes reported with c.violation (replay = JSON with the K-line):
   release-envelope  reported outflow outside [min minRelease, max(max maxRelease, 2*maxSpill)]
   release-demand    demand lies between the curves everywhere, no spill in the step, yet outflow != demand
   spill-below-fsv   outflow above every release curve (so it spilled) but the step ends well below full supply
+  release-outside-curves  STRICT clause: the release rate of an accepted sub-step is outside [min minRelease, max maxRelease]
+                    over the volumes actually traversed (closed interval start..actual end volume) beyond the code's own
+                    release-rate tolerances.  When the faithful model reproduces the sub-step and the release IS within the
+                    curves at the start and PREDICTED end volume (theorem C13_release_between_curves) this is the known
+                    finding key=release-evaluated-at-predicted-end-volume; anything else is a plain VIOLATION
   crash-unpredicted the Go process panicked where the model predicts a normal result (or vice versa)
 """
 import sys, os, re, json, math, subprocess
 sys.path.insert(0, os.path.dirname(os.path.abspath(__file__)))
-import vlib
 from vlib import *
-
-# Build only this property's .vo closure (Properties/C13.vo and what it needs) so that a file of
-# another component that does not compile at the moment cannot mask or fake a C13 result.
-_coq_make_all = vlib.coq_make
-vlib.coq_make = lambda targets=None: _coq_make_all(targets or ['Properties/C13.vo'])
 
 RESULT_RE = re.compile(r'(OK|PANIC|NOMODEL|NOCMD)\b')
 
@@ -169,6 +168,12 @@ def boundary_cases(rng):
     mk('hand-1s', 1., 100., [0.] * 5, [0.] * 5, [0.] * 5, [50.] * 5)
     mk('hand-rain-only', 86400., 1e6, [100.] * 3, [0.] * 3, [0.] * 3, [0.] * 3)     # the pre-fix witness: +100 mm on 1e5 m2
     mk('hand-empty', 86400., 0., [0.] * 3, [0.] * 3, [0.] * 3, [10.] * 3)
+    # flat outlet-capacity curve and a demand above the inflow: drawn down to empty, the code panics (agreed outcome)
+    mk('hand-flat-drawdown-panics', 86400., 1e5, [0.] * 2, [0.] * 2, [0.] * 2, [5.] * 2, n=2, levels=[0., 10.],
+       volumes=[0., 1e6], areas=[0., 1e5], minrel=[0., 0.], maxrel=[5., 5.])
+    # the witness of C13_release_within_end_volumes_refuted (known finding release-evaluated-at-predicted-end-volume)
+    mk('hand-release-predicted-end', 60., 0., [0.], [0.], [10.], [100.], n=3, levels=[0., 5., 6.], volumes=[0., 500., 600.],
+       areas=[0., 0., 0.], minrel=[0., 0., 0.], maxrel=[0., 0., 8.])
     mk('hand-2pt', 86400., 5e4, [5.] * 6, [3.] * 6, [2.] * 6, [1.] * 6, n=2, levels=[0., 5.], volumes=[0., 1e5],
        areas=[0., 4e4], minrel=[0., 3.], maxrel=[0.5, 6.])
     mk('hand-6pt', 86400., 1e5, [5.] * 9, [3.] * 9, [40.] * 9, [1.] * 9, n=6, levels=[0., 1., 2., 3., 4., 5.],
@@ -184,7 +189,7 @@ def malformed_cases(rng, k):
         c = make_case(rng, True)
         c['kind'] = 'malformed'
         what = rng.choice(['n1', 'n0', 'negvol', 'allzero', 'nonmono', 'neginflow', 'hugepet', 'negdemand', 'fracn',
-                           'dupvol', 'crossed', 'wetbottom-dry'])
+                           'dupvol', 'crossed', 'wetbottom-dry', 'nan-input', 'inf-inflow', 'nan-table', 'zero-dt', 'neg-dt'])
         c['what'] = what
         n = c['n']
         if what == 'n1':
@@ -217,6 +222,20 @@ def malformed_cases(rng, k):
             c['v0'] = rng.choice([c['volumes'][j], c['v0']])
         elif what == 'crossed':
             c['minrel'], c['maxrel'] = c['maxrel'], c['minrel']
+        elif what == 'nan-input':
+            if c['rain']:
+                key = rng.choice(['rain', 'pet', 'inflow', 'demand'])
+                c[key][rng.randrange(len(c[key]))] = float('nan')
+        elif what == 'inf-inflow':
+            if c['inflow']:
+                c['inflow'][rng.randrange(len(c['inflow']))] = float('inf')
+        elif what == 'nan-table':
+            key = rng.choice(['levels', 'volumes', 'areas', 'minrel', 'maxrel'])
+            c[key][rng.randrange(n)] = float('nan')
+        elif what == 'zero-dt':
+            c['dt'] = 0.0
+        elif what == 'neg-dt':
+            c['dt'] = -3600.0
         elif what == 'wetbottom-dry':
             c['areas'] = [a + c['areas'][-1] * 0.2 for a in c['areas']]
             c['v0'] = c['volumes'][0]
@@ -327,6 +346,48 @@ def oracle(c, ri, trace):
     return bad
 
 
+ALLOWED_REL_ERROR_RELEASE_RATE = 1e-5
+ALLOWED_ABS_ERROR_RELEASE_RATE = 1e-4
+ESSENTIALLY_ZERO_RELEASE_RATE = 1e-4
+
+
+def curve_range(c, a, b, ys):
+    """min and max of the capped piecewise-linear curve over the closed interval [a,b]:
+    attained at the interval ends or at interior table rows"""
+    lo, hi = min(a, b), max(a, b)
+    pts = [lo, hi] + [x for x in c['volumes'] if lo < x < hi]
+    vals = [capped_interp(c, p, ys) for p in pts]
+    return min(vals), max(vals)
+
+
+def strict_release(c, trace):
+    """STRICT reading of the release clause on the accepted sub-steps (model-side ghost trace of a
+    case on which model and code agree bit-for-bit): each sub-step's release rate must lie between
+    min minRelease and max maxRelease over the volumes actually traversed.
+    -> list of (is_known_finding_class, detail), at most one per case"""
+    for t, subs in enumerate(trace):
+        for k, (h, out, area, spill, v0, vp, v1) in enumerate(subs):
+            vmid = v1 + spill                                  # actual end volume before spilling
+            a, b = min(v0, vmid, v1), max(v0, vmid, v1)
+            lo, _ = curve_range(c, a, b, c['minrel'])
+            _, hi = curve_range(c, a, b, c['maxrel'])
+            tol = ALLOWED_ABS_ERROR_RELEASE_RATE + ESSENTIALLY_ZERO_RELEASE_RATE + \
+                ALLOWED_REL_ERROR_RELEASE_RATE * max(abs(out), abs(lo), abs(hi))
+            if lo - tol <= out <= hi + tol:
+                continue
+            # the proved envelope: curves at the start volume and at the PREDICTED end volume
+            plo = min(capped_interp(c, v0, c['minrel']), capped_interp(c, vp, c['minrel']))
+            phi = max(capped_interp(c, v0, c['maxrel']), capped_interp(c, vp, c['maxrel']))
+            eps = 1e-12 * max(abs(out), abs(plo), abs(phi)) + 1e-300
+            within_predicted = plo - eps <= out <= phi + eps
+            return [(within_predicted, {'t': t, 'substep': k, 'h': h, 'release_rate': out, 'start_volume': v0,
+                                        'predicted_end_volume': vp, 'actual_end_volume': vmid, 'volume_after_spill': v1,
+                                        'min_minRelease_over_traversed': lo, 'max_maxRelease_over_traversed': hi,
+                                        'envelope_at_start_and_predicted_end': [plo, phi], 'tolerance': tol,
+                                        'demand': c['demand'][t], 'inflow': c['inflow'][t]})]
+    return []
+
+
 def describe(c):
     return {k: c[k] for k in ('kind', 'style', 'regime', 'dt', 'n', 'levels', 'volumes', 'areas', 'minrel', 'maxrel', 'v0',
                               'rain', 'pet', 'inflow', 'demand') if k in c}
@@ -338,7 +399,8 @@ def evaluate(c_check, cases, lines, want_samples=True):
     traces = run_model(['STORAGE_TRACE ' + l.split(' ', 2)[2] for l in lines])
     stats = {'agreed_panics': 0, 'agreed_panics_on_valid_inputs': 0, 'config_error_returns': 0, 'impl_stdout_notes': notes,
              'timesteps': 0, 'substeps': 0, 'steps_with_halving': 0, 'steps_with_spill': 0, 'steps_ending_empty': 0,
-             'cases_with_rain_and_area': 0, 'model_fuel_exhausted': 0}
+             'cases_with_rain_and_area': 0, 'model_fuel_exhausted': 0,
+             'strict_release_failures': 0, 'strict_release_failures_within_predicted_envelope': 0, 'strict_release_first': None}
     first_valid_panic = None
     for i, (c, li, lm, lt) in enumerate(zip(cases, impl, model, traces)):
         ri, rm = parse_kresult(li), parse_kresult(lm)
@@ -384,6 +446,18 @@ def evaluate(c_check, cases, lines, want_samples=True):
         for (cls, detail) in oracle(c, ri, steps if (code == 'OK' and not diff) else None):
             c_check.violation('oracle_%s_%d.json' % (cls, i), {'kind': cls, 'detail': detail, 'case': describe(c),
                                                                'case_line': lines[i]}, key=cls)
+        if code == 'OK' and not diff:
+            for (known_class, detail) in strict_release(c, steps):
+                stats['strict_release_failures'] += 1
+                if known_class:
+                    stats['strict_release_failures_within_predicted_envelope'] += 1
+                    if stats['strict_release_first'] is None:
+                        stats['strict_release_first'] = {'regime': c['regime'], 'detail': detail}
+                c_check.violation('oracle_release-outside-curves_%d.json' % i,
+                                  {'kind': 'release-outside-curves', 'model_reproduces_substep': True,
+                                   'within_curves_at_start_and_predicted_end': known_class, 'detail': detail,
+                                   'case': describe(c), 'case_line': lines[i]},
+                                  key='release-evaluated-at-predicted-end-volume' if known_class else None)
         if want_samples and i % 61 == 3:
             c_check.sample({'regime': c['regime'], 'dt': c['dt'], 'nLVA': c['n'], 'volumes': c['volumes'], 'v0': c['v0'],
                             'timesteps': len(c['rain']), 'accepted_substeps': nsub,
@@ -397,19 +471,24 @@ def main():
     if '--replay' in sys.argv:
         path = sys.argv[sys.argv.index('--replay') + 1]
         obj = json.load(open(path))
-        build_driver(); build_harness(['owrun'])
+        build_driver(['c13']); build_harness(['owrun'])
         line = obj.get('case_line') or (obj.get('mismatches') or [{}])[0].get('line')
         if not line:
             print('nothing to replay in', path); sys.exit(2)
         impl, _ = run_impl_filtered([line])
-        print('impl :', impl[0][:400]); print('model:', run_model([line])[0][:400])
+        mdl = run_model([line])
+        print('impl :', impl[0][:400]); print('model:', mdl[0][:400])
+        diff = kresults_agree(parse_kresult(impl[0]), parse_kresult(mdl[0]))
+        print('model-vs-code:', diff or 'agree (bit-exact)')
+        bad = []
         if 'case' in obj and parse_kresult(impl[0])[0] == 'OK' and obj['case'].get('kind') == 'valid':
             c = dict(obj['case']); c.setdefault('tmc', [0.0] * len(c['rain']))
-            print('oracle:', oracle(c, parse_kresult(impl[0]), None))
-        sys.exit(0)
+            bad = oracle(c, parse_kresult(impl[0]), None)
+            print('oracle:', bad or 'holds')
+        sys.exit(1 if (diff or bad) else 0)
     c = Check('C13')
     c.prove()
-    build_driver()
+    build_driver(['c13'])
     build_harness(['owrun'])
     rng = c.rng
     quick = c.tier == 'quick'
@@ -419,6 +498,16 @@ def main():
     cases += malformed_cases(rng, 60 if quick else 600)
     lines = [case_line(x) for x in cases]
     stats = evaluate(c, cases, lines)
+    if not quick and not c.proof_broken:
+        # independent re-check of the compiled proofs with the stand-alone checker
+        try:
+            out = sh('timeout 2400 coqchk -silent -o -Q . OW OW.Properties.C13', cwd=COQ, timeout=2500)
+            stats['coqchk'] = 'ok' if 'type-in-type: <none>' in out and 'unsafe (co)fixpoints: <none>' in out else 'unexpected output'
+            if stats['coqchk'] != 'ok':
+                c.violation('coqchk.json', {'kind': 'coqchk-unexpected-output', 'output_tail': out[-2000:]}, no_input=True)
+        except BuildError as e:
+            stats['coqchk'] = 'failed'
+            c.violation('coqchk.json', {'kind': 'coqchk-failed', 'output_tail': e.output[-2000:]}, no_input=True)
     c.cov['rule'] = ('monotone level-volume-area tables and release curves with 2..6 points (styles: spillway step at full supply, '
                      'general increasing curves, flat curves, wet bottom), deltaT in {1,6,60,600,3600,43200,86400,random}, '
                      'series regimes fill-to-spill / drawdown-to-empty / steady / rain-only / pulse / wet-dry cycle / mixed, '
